@@ -352,14 +352,14 @@ pub fn run(check: &mut Check) {
     let mut meta = vec![];
     for (si, sc) in scs.iter().enumerate() {
         // the pair scripts of the kv alphabet are only used by the crash engine in full; here every 5th
-        if sc.name.starts_with("kv2-") && si % (if tier == Tier::Quick { 12 } else { 3 }) != 0 {
+        if sc.name.starts_with("kv2-") && si % (if tier == Tier::Quick { 12 } else { 1 }) != 0 {
             continue;
         }
         for (step, a) in sc.actions.iter().enumerate() {
             if !matches!(a, Action::Tx { commit: true, .. }) {
                 continue;
             }
-            let pairs = tier == Tier::Thorough && !sc.name.starts_with("kv2-");
+            let pairs = tier == Tier::Thorough && (!sc.name.starts_with("kv2-") || si % 9 == 0);
             jobs.push(json!({"script": si, "step": step, "pairs": pairs}).to_string());
             meta.push((si, step));
         }
